@@ -3,6 +3,7 @@
 cd "$(dirname "$0")/.."
 for d in seeded/*/; do
   s=$(basename $d); p=${s%-*}
+  grep -q '"retired"' $d/meta.json 2>/dev/null && { echo "== $s (retired)"; continue; }
   echo "== $s"
   tools/mutant.sh $d/patch.diff $p 2>&1 | grep -E "VIOLATION|quick:|does not apply" | grep -v "violation_[2-9]\|violation_1[0-9]" | cut -c1-160
 done
